@@ -6,7 +6,7 @@ import json, sys, os
 root = os.path.join(os.path.dirname(os.path.abspath(__file__)), '..')
 txt = open(sys.argv[1]).read()
 emit = json.loads(txt[txt.index('{'):])
-secs = sys.argv[2:] or ['sources', 'params', 'fnsites', 'relaxing_sites']
+secs = sys.argv[2:] or ['sources', 'params', 'fnsites', 'relaxing_sites', 'fnmust']
 p = os.path.join(root, 'rules', 'flow.json')
 ref = json.load(open(p))
 for s in secs:
